@@ -311,6 +311,59 @@ _Tripwire = None
 _TRIP: Dict[str, Any] = {}
 
 
+def reset_reach(w: World) -> List[str]:
+    """What `Network.pre_timestep` cannot reach: a wireless interface of a node of the network whose AirSpace is not the network's,
+    a connected link that is not registered in `Network.links`."""
+    out = []
+    nodes = w.net.nodes.values() if isinstance(w.net.nodes, dict) else []
+    registered = {id(l) for l in w.net.links.values()}
+    for node in nodes:
+        for ni in node.network_interfaces.values():
+            if hasattr(ni, "airspace") and ni.airspace is not w.net.airspace:
+                out.append(f"wireless interface {node.config.hostname}:{ni.port_num} is on an AirSpace that is not its network's")
+            l = getattr(ni, "_connected_link", None)
+            if l is not None and id(l) not in registered:
+                out.append(f"link of {node.config.hostname}:{ni.port_num} is not registered in Network.links")
+    return out
+
+
+def from_config_probe() -> dict:
+    """The public construction path: every wireless scenario file of the repository's test assets through `PrimaiteGame.from_config`
+    (the shipped scenarios have no wireless node): every wireless interface must sit on its network's AirSpace and every link must be
+    registered, traffic must load the channel, and one `pre_timestep` through the GAME must zero every load."""
+    import logging
+    import yaml
+    from harness.lib.core import REPO
+    from primaite.game.game import PrimaiteGame
+    out = {"files": 0, "wireless_interfaces": 0, "links": 0, "problems": [], "channel_load_before_reset": []}
+    for f in sorted((REPO / "tests" / "assets" / "configs").glob("wireless*.yaml")):
+        cfg = yaml.safe_load(f.read_text())
+        logging.disable(logging.CRITICAL)
+        try:
+            with _quiet():
+                game = PrimaiteGame.from_config(cfg)
+                net = game.simulation.network
+                w = World()
+                w.net = net
+                out["files"] += 1
+                out["problems"] += [f"{f.name}: {x}" for x in reset_reach(w)]
+                aps = [ni for n in net.nodes.values() for ni in n.network_interfaces.values() if hasattr(ni, "airspace")]
+                out["wireless_interfaces"] += len(aps)
+                out["links"] += len(net.links)
+                hosts = [n for n in net.nodes.values() if type(n).__name__ in ("Computer", "Server")]
+                if len(hosts) >= 2:
+                    hosts[0].ping(hosts[-1].network_interface[1].ip_address, pings=1)
+                out["channel_load_before_reset"].append(round(sum(net.airspace.bandwidth_load.values()), 6))
+                for ap in aps[:1]:
+                    ap.disable()            # a frequency member down at the boundary
+                game.pre_timestep()
+                if any(v != 0.0 for v in net.airspace.bandwidth_load.values()) or any(l.current_load != 0.0 for l in net.links.values()):
+                    out["problems"].append(f"{f.name}: a load is not zero after PrimaiteGame.pre_timestep")
+        finally:
+            logging.disable(logging.NOTSET)
+    return out
+
+
 def _air_load_of(airspace, hz: int) -> float:
     for k, v in airspace.bandwidth_load.items():   # keys are whatever `frequency_hz` is (2.4e9 as float for the shipped names)
         if int(k) == hz:
@@ -654,7 +707,12 @@ class Recorder:
                 if net is not rec.w.net:
                     return orig(net, timestep)
                 marker = {"t": "T", "before": dump(rec.w), "nested": len(rec.stack) > 1}
+                marker["down_with_load"] = sum(1 for l in rec.w.links if l.current_load > 0.0 and not (
+                    getattr(l.endpoint_a, "enabled", False) and getattr(l.endpoint_b, "enabled", False)))
+                marker["empty_with_load"] = sum(1 for c, (hz, ifs) in enumerate(rec.w.chans)
+                                                if _air_load_of(net.airspace, hz) > 0.0 and "1" not in rec.w.mem_bits(c))
                 r = orig(net, timestep)
+                marker["foreign"] = reset_reach(rec.w)
                 marker["after"] = dump(rec.w)
                 marker["zero"] = (all(l.current_load == 0.0 for l in rec.w.links)
                                   and all(v == 0.0 for v in net.airspace.bandwidth_load.values()))
@@ -1281,6 +1339,13 @@ def run_impl(case: dict, inventory=None) -> dict:
                     impl.append(e["after"])
                     if not e["zero"]:
                         oracle.append({"kind": "load-not-zero-after-tick", "op": oi, "medium": "any"})
+                    for x in e.get("foreign", []):
+                        oracle.append({"kind": "load-out-of-reach-of-the-tick-reset", "op": oi, "medium": "any", "detail": x})
+                    bump("tick-boundaries")
+                    if e.get("down_with_load"):
+                        bump("tick-boundary:links-down-with-a-load-to-reset", e["down_with_load"])
+                    if e.get("empty_with_load"):
+                        bump("tick-boundary:frequencies-with-no-member-and-a-load-to-reset", e["empty_with_load"])
                     new_tick()
                 elif e["t"] == "B":
                     bump("capacity-change:wired:" + ("raise" if e["v"] > lcap[e["k"]] else "lower" if e["v"] < lcap[e["k"]] else "same"))
@@ -1386,6 +1451,7 @@ def gen_case(rng: Rng, max_ops: int = 14) -> dict:
         # a C2 server and a beacon: the second piece of real software that executes requests it receives over the network
         a0 = rng.choice(hosts)
         topo["c2"] = [a0, rng.choice([h for h in hosts if h != a0])]
+    boundary_down = rng.chance(1, 3)    # links / frequencies that are down or empty at a tick boundary
     membership = rng.chance(1, 2)       # (wireless) access points leave / join the airspace, hop frequency, all inside ticks
     capchange = rng.chance(1, 4)        # this case reassigns bandwidths / frequency capacities in mid-episode
     boundary = rng.chance(1, 4)         # this case sets a capacity to the exact sum of k frames (or one ulp beside it)
@@ -1429,6 +1495,18 @@ def gen_case(rng: Rng, max_ops: int = 14) -> dict:
                             rng.choice(["exact", "exact", "below", "above"])])
         elif topo.get("tripwire") and r >= 58 and r < 66:
             ops += trip_ops(rng, topo, hosts)
+        elif boundary_down and r >= 80 and r < 90:
+            # down at the tick boundary: traffic, then an end interface (or a whole frequency) goes down, THEN the tick; the load
+            # must read 0 while down and the link / channel must have its whole capacity when it comes back
+            if kind == "wireless" and rng.chance(1, 2):
+                ops += [["ping", a, b, 1], ["wflap", []], ["tick"], ["wflap", list(range(len(hosts)))], ["ping", a, b, 1]]
+            else:
+                x = rng.choice(ifaces)
+                ops += [["burst", a, rng.choice([b, "bcast"]), rng.choice([0, 100, 1000]), rng.choice([1, 2, 3])],
+                        ["nic", x, "disable"], ["tick"]]
+                if rng.chance(1, 2):
+                    ops.append(["tick"])
+                ops += [["nic", x, "enable"], ["burst", a, b, rng.choice([0, 100, 1000]), rng.choice([1, 2])]]
         elif kind == "wireless" and membership and r >= 66 and r < 80:
             q = rng.below(10)
             nr = len(hosts)
